@@ -12,6 +12,10 @@ package main
 // case line:
 //   <id> e2e sm=regular|concurrent|ondisk db=pebble|tan props=<n> hist=<op,op|->
 //        post=<0|1> old=<a=..;n=..;w=..;r=..> members=<map> | trial ; trial ...
+//   wal=none|same|distinct: NodeHostConfig.WALDir of every host (unset, the
+//             NodeHostDir, a directory of its own)
+//   late=1:   after the export (and the post proposals) the survivor takes a
+//             snapshot of its own and compacts its log beyond the export index
 //   hist ops: nv3 (add non-voting 3), nv5rm5 (add non-voting 5, remove it),
 //             v2 (add voting 2: quorum is lost afterwards), w4 (add witness 4: ditto)
 //   pre=<map>: the real repair first runs the tool with this preliminary list on
@@ -56,6 +60,9 @@ import (
 const e2eShard = 1
 
 var outDir string
+
+// what the end-to-end run is doing (for the report of a panic)
+var e2eStage string
 
 // ---------------------------------------------------------------- transport
 
@@ -263,6 +270,7 @@ type world struct {
 	root   string
 	smKind string
 	db     string
+	wal    string // NodeHostConfig.WALDir: none | same (= NodeHostDir) | distinct
 	extErr string
 }
 
@@ -277,7 +285,16 @@ func (w *world) nhConfig(dir, addr string) config.NodeHostConfig {
 		ex.LogDBFactory = tanplugin.Factory
 		ex.LogDB.KVWriteBufferSize = 64 * 1024
 	}
-	return config.NodeHostConfig{NodeHostDir: dir, RTTMillisecond: 2, RaftAddress: addr, Expert: ex}
+	// everything of one host lives below dir: the data directory and, when
+	// configured, a separate low latency (WAL) directory
+	cfg := config.NodeHostConfig{NodeHostDir: dir + "/data", RTTMillisecond: 2, RaftAddress: addr, Expert: ex}
+	switch w.wal {
+	case "same":
+		cfg.WALDir = dir + "/data"
+	case "distinct":
+		cfg.WALDir = dir + "/wal"
+	}
+	return cfg
 }
 
 func shardConfig(replica uint64) config.Config {
@@ -530,6 +547,21 @@ func parseTrial(s string) trial {
 	return t
 }
 
+// readRecordAsNodeHost opens the host's log store through the real
+// NodeHost.createLogDB (not the way the tool opens it) and returns the newest
+// snapshot record of the replica.
+func readRecordAsNodeHost(cfg config.NodeHostConfig, replica uint64) (pb.Snapshot, error) {
+	db, closer, err := dragonboat.VerifC20OpenLogDB(cfg)
+	if err != nil {
+		return pb.Snapshot{}, err
+	}
+	ss, err := db.GetSnapshot(e2eShard, replica)
+	if cerr := closer(); err == nil {
+		err = cerr
+	}
+	return ss, err
+}
+
 // the snapshot record a restarting NodeHost is going to find, as the harness prints it
 func showRecorded(ss pb.Snapshot, index uint64) string {
 	cc := "OTHER"
@@ -574,7 +606,14 @@ func runE2E(id, rest string, obs *vh.LineWriter, st *vh.Stats, a vh.Args) {
 		obs.Printf("%s\n", l)
 	}
 	if p != "" {
-		obs.Printf("%s e2e HARNESS-PANIC %s\n", id, strings.ReplaceAll(p, "\n", " "))
+		// a panic of the real code while the harness drives it (NewNodeHost, start of
+		// a replica, the import tool outside a trial)
+		obs.Printf("%s e2e PANIC\n", id)
+		msg := strings.ReplaceAll(p, "\n", " ")
+		if len(msg) > 300 {
+			msg = msg[:300]
+		}
+		st.Violation(id, "PANIC-DURING-REPAIR: the real code panicked at stage '"+e2eStage+"': "+msg)
 	}
 }
 
@@ -585,7 +624,8 @@ func e2e(id, rest string, out func(string, ...interface{}), st *vh.Stats) {
 	}
 	f := fields(head)
 	fs := hooks.NewMemFS()
-	w := &world{fs: fs, root: "/c20/" + id, smKind: f["sm"], db: f["db"]}
+	w := &world{fs: fs, root: "/c20/" + id, smKind: f["sm"], db: f["db"], wal: f["wal"]}
+	st.Count("e2e.wal." + map[bool]string{true: "none", false: w.wal}[w.wal == ""])
 	if f["fs"] == "disk" {
 		// the operating system's file system, below the run's output directory
 		fs = hooks.DefaultFS()
@@ -604,6 +644,7 @@ func e2e(id, rest string, out func(string, ...interface{}), st *vh.Stats) {
 	st.Count("e2e.sm." + w.smKind)
 	st.Count("e2e.db." + w.db)
 
+	e2eStage = "life before the export"
 	// ---- the shard before the loss of quorum
 	dir1 := w.root + "/nh1"
 	nhc1 := w.nhConfig(dir1, addrOf(1))
@@ -693,6 +734,29 @@ func e2e(id, rest string, out func(string, ...interface{}), st *vh.Stats) {
 			}
 		}
 	}
+	if f["late"] == "1" {
+		// the survivor goes on: its own snapshot and its log compaction point end up
+		// beyond the index of the export
+		for i := 0; i < 4; i++ {
+			if err := propose(nh, fmt.Sprintf("late%d=lost", i)); err != nil {
+				out("export FAILED late-propose")
+				return
+			}
+		}
+		if err := retry(func(ctx context.Context) error {
+			_, e := nh.SyncRequestSnapshot(ctx, e2eShard, dragonboat.SnapshotOption{OverrideCompactionOverhead: true, CompactionOverhead: 1})
+			return e
+		}); err != nil {
+			out("export FAILED late-snapshot")
+			return
+		}
+		if err := propose(nh, "late9=lost"); err != nil {
+			out("export FAILED late-propose")
+			return
+		}
+		time.Sleep(30 * time.Millisecond) // the compaction request is handled by the step worker
+		st.Count("e2e.late-compaction")
+	}
 	nh.Close()
 	closed = true
 
@@ -711,6 +775,7 @@ func e2e(id, rest string, out func(string, ...interface{}), st *vh.Stats) {
 	}
 	origPayload, _ := hooks.ReadSnapshotFile(fs.PathJoin(srcDir, ssFile), fs)
 
+	e2eStage = "trials"
 	// ---- trials: one file of the export changed, or a bad member list
 	// existing data of a host other than the source host: made by one import
 	// of the intact export for that host alone
@@ -790,10 +855,10 @@ func e2e(id, rest string, out func(string, ...interface{}), st *vh.Stats) {
 				// what the log store now records for the replica
 				var rec pb.Snapshot
 				var rerr0 error
-				rp0 := vh.Catch(func() { rec, rerr0 = tools.VerifReadSnapshotRecord(w.nhConfig(tdir, t.raddr), e2eShard, t.self) })
+				rp0 := vh.Catch(func() { rec, rerr0 = readRecordAsNodeHost(w.nhConfig(tdir, t.raddr), t.self) })
 				if rp0 != "" || rerr0 != nil {
 					out("trial %d %s ACCEPTED rec=UNREADABLE", n, t.name)
-					st.Violation(id, fmt.Sprintf("RECORD-UNREADABLE: the log store record cannot be read after an accepted import (trial %s): %v %s", t.name, rerr0, rp0))
+					st.Violation(id, fmt.Sprintf("RECORD-UNREADABLE: ImportSnapshot returned nil but the host's log store, opened the way NewNodeHost opens it (WALDir %s), fails or has no record (trial %s): %v %s", w.wal, t.name, rerr0, rp0))
 				} else {
 					out("trial %d %s ACCEPTED rec=%s", n, t.name, showRecorded(rec, index))
 					if showMap(rec.Membership.Addresses) != showMap(t.members) || len(rec.Membership.NonVotings) != 0 || len(rec.Membership.Witnesses) != 0 ||
@@ -847,6 +912,7 @@ func e2e(id, rest string, out func(string, ...interface{}), st *vh.Stats) {
 		}
 	}
 
+	e2eStage = "import and first restart"
 	// ---- the repair: import on every listed host, restart
 	ids := make([]uint64, 0, len(finalMembers))
 	for k := range finalMembers {
@@ -971,6 +1037,7 @@ func e2e(id, rest string, out func(string, ...interface{}), st *vh.Stats) {
 		// still its latest one (an on-disk state machine has shrunk the image
 		// after the first recovery); the state must be the exported state plus
 		// what was committed since the repair
+		e2eStage = "second restart of the repaired replicas"
 		later := map[string]string{}
 		for _, l := range strings.Split(exported, "\n") {
 			if p := strings.SplitN(l, "=", 2); len(p) == 2 {
@@ -1189,6 +1256,9 @@ func genE2E(r *vh.Rand, i int, tier string) string {
 	if i%2 == 1 {
 		pre = fmtMap(with(8, addrOf(8)))
 	}
-	return fmt.Sprintf("e2e sm=%s db=%s fs=%s props=%d hist=%s post=%d old=%s members=%s pre=%s | %s",
-		smK, db, fsK, 3+r.Intn(20), hs, post, showOld(old), fmtMap(members), pre, strings.Join(trials, " ; "))
+	// NodeHostConfig.WALDir of every host; a survivor that keeps working after the
+	// export (only while it still has its quorum)
+	wal := []string{"distinct", "same", "none"}[(i+i/6)%3]
+	return fmt.Sprintf("e2e sm=%s db=%s fs=%s wal=%s props=%d hist=%s post=%d late=%d old=%s members=%s pre=%s | %s",
+		smK, db, fsK, wal, 3+r.Intn(20), hs, post, post, showOld(old), fmtMap(members), pre, strings.Join(trials, " ; "))
 }
